@@ -231,6 +231,30 @@ func H_C13_AdditiveShape() {
 	vsym.Reach("additive-shape-checked")
 }
 
+// H_C13_SenderShape: the sender side of the multiplication on a receiver message whose nested parts are absent (what a
+// decoder produces when inner fields are omitted): Round1 reports an error and never panics.
+func H_C13_SenderShape() {
+	group := curve.Secp256k1{}
+	send, _ := c13Setups()
+	depth := vsym.Choose("depth", 4)
+	var msg *MultiplyReceiveRound1Message
+	switch depth {
+	case 1:
+		msg = &MultiplyReceiveRound1Message{}
+	case 2:
+		msg = &MultiplyReceiveRound1Message{Msg: &AdditiveOTReceiveRound1Message{}}
+	case 3:
+		msg = &MultiplyReceiveRound1Message{Msg: &AdditiveOTReceiveRound1Message{Msg: &ExtendedOTReceiveMessage{}}}
+	}
+	var err error
+	panicked := vsym.ExpectPanic(func() {
+		_, _, err = NewMultiplySender(hash.New(), send, group.NewScalar().SetNat(new(saferith.Nat).SetUint64(3))).Round1(msg)
+	})
+	vsym.Assert(!panicked, "a receiver message with absent parts never crashes the sender")
+	vsym.Assert(panicked || err != nil, "a receiver message with absent parts is refused")
+	vsym.Reach("sender-shape-checked")
+}
+
 // H_C13_FieldOps: eq is equality and shl1 is a one-bit left shift of the 256-bit little-endian value.
 func H_C13_FieldOps() {
 	var a, b fieldElement
